@@ -24,7 +24,7 @@ Fixpoint vd_get (p : list str) (v : val) : option val :=
   match p with
   | [] => Some v
   | k :: p' => match v with
-               | VDict dd => match lookup k dd with Some v' => vd_get p' v' | None => None end
+               | VDict dd | VNs dd => match lookup k dd with Some v' => vd_get p' v' | None => None end
                | _ => None
                end
   end.
@@ -34,8 +34,11 @@ Fixpoint vd_set (p : list str) (x : val) (dd : list (str * val)) : list (str * v
   | [] => dd
   | [k] => insert k x dd
   | k :: p' =>
-      let sub := match lookup k dd with Some (VDict dd') => dd' | _ => [] end in
-      insert k (VDict (vd_set p' x sub)) dd
+      match lookup k dd with
+      | Some (VDict dd') => insert k (VDict (vd_set p' x dd')) dd
+      | Some (VNs dd') => insert k (VNs (vd_set p' x dd')) dd     (* a namespace stored inside the dict: still a mapping *)
+      | _ => insert k (VDict (vd_set p' x [])) dd
+      end
   end.
 
 Fixpoint vd_del (p : list str) (dd : list (str * val)) : option (list (str * val)) :=
@@ -48,6 +51,10 @@ Fixpoint vd_del (p : list str) (dd : list (str * val)) : option (list (str * val
                             | Some r => Some (insert k (VDict r) dd)
                             | None => None
                             end
+      | Some (VNs dd') => match vd_del p' dd' with
+                          | Some r => Some (insert k (VNs r) dd)
+                          | None => None
+                          end
       | _ => None
       end
   end.
@@ -146,3 +153,43 @@ Fixpoint node_as_dict (n : node) : val :=
   | Branch d => VDict (map (fun kn => (fst kn, node_as_dict (snd kn))) d)
   end.
 Definition spec_as_dict (d : sdict) : val := node_as_dict (Branch d).
+
+(* dict_to_namespace: every dictionary becomes a branch, also the dictionaries that are elements of a list value
+   (one list level); a dotted key addresses a path. A key that is not a key of a nested mapping (a space, an
+   empty segment) makes the conversion fail. *)
+Fixpoint dict_keys_valid (v : val) : bool :=
+  match v with
+  | VDict dd =>
+      forallb (fun kv => match spec_key (fst kv) with Some _ => true | None => false end &&
+                 match snd kv with
+                 | VDict _ => dict_keys_valid (snd kv)
+                 | VList l => forallb (fun e => match e with VDict _ => dict_keys_valid e | _ => true end) l
+                 | _ => true
+                 end) dd
+  | _ => true
+  end.
+
+Fixpoint dict_to_node (v : val) : node :=
+  match v with
+  | VDict dd =>
+      let kn := map (fun kv => (fst kv,
+                       match snd kv with
+                       | VDict _ => dict_to_node (snd kv)
+                       | VList l => Leaf (VList (map (fun e => match e with
+                                                               | VDict _ => val_of_node (dict_to_node e)
+                                                               | _ => e
+                                                               end) l))
+                       | x => Leaf x
+                       end)) dd in
+      Branch (fold_left (fun acc kn' => match spec_key (fst kn') with
+                                        | Some p => spec_set p (snd kn') acc
+                                        | None => acc
+                                        end) kn [])
+  | x => Leaf x
+  end.
+
+Definition spec_from_dict (d : val) : option sdict :=
+  match d with
+  | VDict _ => if dict_keys_valid d then match dict_to_node d with Branch st => Some st | Leaf _ => None end else None
+  | _ => None
+  end.
